@@ -201,7 +201,7 @@ func (t *TargetClient) mapDBAndCollectionName(db, collection string) (string, st
 		}
 		if sourceDB == db && (sourceCollection == "*" || collection == "") {
 			returnDB, _ = util.GetCollectionNameFromFull(target)
-			return false
+			// keep ranging: a collection-level entry takes precedence over a whole-database entry
 		}
 		return true
 	})
